@@ -361,8 +361,17 @@ pub enum RealOp {
     UniformX { pc: Fb, both: bool },
     ArithmeticX { pc: Fb, both: bool },
     DeMutation { y: u32, f: Fb },
-    DeBinomial { pc: Fb },
-    DeExponential { pc: Fb },
+    DeBinomial {
+        pc: Fb,
+        /// the mutated population has that many individuals more (> 0) or fewer (< 0) than the base population
+        #[serde(default)]
+        skew: i8,
+    },
+    DeExponential {
+        pc: Fb,
+        #[serde(default)]
+        skew: i8,
+    },
 }
 
 #[derive(Clone, Debug, Serialize, Deserialize, PartialEq)]
@@ -391,7 +400,19 @@ pub enum CompCase {
     /// A mutation instantiated with the non-default identifier `A` (`new_with_id`), its own rate 0 or 1, optionally
     /// next to an initialised default-identified instance of the same operator whose rate is `sibling`.
     /// which: 0 Normal, 1 Uniform, 2 PartialRandomSpread, 3 BitFlip, 4 PartialRandomBitstring, 5 Scramble
-    Identified { which: u8, own_full: bool, sibling: Option<Fb>, n: usize, dim: usize, seed: u64 },
+    Identified {
+        which: u8,
+        own_full: bool,
+        sibling: Option<Fb>,
+        n: usize,
+        dim: usize,
+        seed: u64,
+        /// the instance initialised first has the SAME identifier (two instances of one operator in one configuration,
+        /// e.g. in the two bodies of a branch): the instance initialised last - the one executed here - works with its
+        /// own parameters
+        #[serde(default)]
+        same_id: bool,
+    },
 }
 
 pub struct CompCheck;
@@ -402,7 +423,7 @@ impl Check for CompCheck {
         "C13/components".into()
     }
     fn classes(&self) -> &'static [&'static str] {
-        &["population>=2 and dim>=3", "rate 0", "rate 1", "crossover", "odd population", "permutation operator", "DE operator", "empty population", "non-default identifier", "non-default identifier next to a default-identified instance with another rate"]
+        &["population>=2 and dim>=3", "rate 0", "rate 1", "crossover", "odd population", "permutation operator", "DE operator", "empty population", "non-default identifier", "non-default identifier next to a default-identified instance with another rate", "DE crossover on populations of different sizes", "a second instance with the same identifier and other parameters was initialised before"]
     }
     fn oracle(&self, c: &CompCase) -> Outcome {
         let mut cl = 0;
@@ -652,20 +673,36 @@ fn comp_oracle_inner(c: &CompCase, cl: &mut u64) -> Result<(), Failure> {
                         ensure_that!(matches!(r, Ok(Err(_))), "C13 DEMutation accepts a malformed layout", "{at}: population of {} individuals (not a multiple of {block}) gave {:?}", layout.len() - 1, r.map(|x| x.is_ok()));
                     }
                 }
-                RealOp::DeBinomial { pc } | RealOp::DeExponential { pc } => {
+                RealOp::DeBinomial { pc, skew } | RealOp::DeExponential { pc, skew } => {
                     *cl |= 64 | 8;
                     let pc = pc.f();
+                    let skew = *skew;
                     let bin = matches!(op, RealOp::DeBinomial { .. });
                     let name = if bin { "DEBinomialCrossover" } else { "DEExponentialCrossover" };
                     let comp: Box<dyn Component<RealP>> = if bin { DEBinomialCrossover::new(pc) } else { DEExponentialCrossover::new(pc) };
-                    let mutants: Vec<Vec<f64>> = pop.iter().map(|s| s.iter().map(|x| x + 1000.0).collect()).collect();
+                    let mut mutants: Vec<Vec<f64>> = pop.iter().map(|s| s.iter().map(|x| x + 1000.0).collect()).collect();
+                    // the two populations need not have the same size: pairs are formed index-wise, what has no partner is left alone
+                    if skew < 0 {
+                        mutants.truncate(n.saturating_sub(skew.unsigned_abs() as usize));
+                    } else {
+                        for j in 0..skew as usize {
+                            mutants.push((0..dim).map(|i| 5000.0 + (j * dim + i) as f64).collect());
+                        }
+                    }
+                    if skew != 0 {
+                        *cl |= 1024;
+                    }
+                    let m = mutants.len();
                     let mut st = state_with(vec![inds(&pop), inds(&mutants)], *seed);
                     run_comp(comp.as_ref(), &problem, &mut st, name, &at)?;
                     let after = stack_solutions(&st);
                     ensure_that!(after.len() == 2 && after[0] == pop, format!("C13 {name} stack"), "{at}: base population changed or stack height {}", after.len());
                     let got = &after[1];
-                    ensure_that!(got.len() == n, format!("C13 {name} offspring count"), "{at}: {} trial vectors for {n} bases", got.len());
-                    for k in 0..n {
+                    ensure_that!(got.len() == m, format!("C13 {name} offspring count"), "{at}: {} trial vectors for {m} mutated individuals ({n} bases)", got.len());
+                    for k in n.min(m)..m {
+                        ensure_that!(got[k] == mutants[k], format!("C13 {name} changes an individual without partner"), "{at}: mutated individual {k} has no base but became {:?}", got[k]);
+                    }
+                    for k in 0..n.min(m) {
                         let mut from_base = 0;
                         for i in 0..dim {
                             let g = got[k][i];
@@ -832,7 +869,11 @@ fn comp_oracle_inner(c: &CompCase, cl: &mut u64) -> Result<(), Failure> {
                 _ => ensure_that!(got.len() == *size, format!("C13 {name} changes the population size"), "{at}"),
             }
         }
-        CompCase::Identified { which, own_full, sibling, n, dim, seed } => {
+        CompCase::Identified { which, own_full, sibling, n, dim, seed, same_id } => {
+            let same_id = *same_id;
+            if same_id && sibling.is_some() {
+                *cl |= 2048;
+            }
             use mahf::identifier::A;
             let (n, dim, which) = (*n, *dim, *which % 6);
             *cl |= 256;
@@ -860,9 +901,9 @@ fn comp_oracle_inner(c: &CompCase, cl: &mut u64) -> Result<(), Failure> {
                     let pop: Vec<Vec<f64>> = (0..n).map(|_| (0..dim).map(|_| (next() % 2000) as f64 / 100.0 - 10.0).collect()).collect();
                     let inds: Vec<_> = pop.iter().map(|s| Individual::<RealP>::new_unevaluated(s.clone())).collect();
                     let (name, comp, sib): (&str, Box<dyn Component<RealP>>, Option<Box<dyn Component<RealP>>>) = match which {
-                        0 => ("NormalMutation", NormalMutation::<A>::new_with_id(1.0, own), sibling.map(|r| NormalMutation::new(1.0, r.f()))),
-                        1 => ("UniformMutation", UniformMutation::<A>::new_with_id(1.0, own), sibling.map(|r| UniformMutation::new(1.0, r.f()))),
-                        _ => ("PartialRandomSpread", PartialRandomSpread::<A>::new_with_id(own), sibling.map(|r| PartialRandomSpread::new(r.f()))),
+                        0 => ("NormalMutation", NormalMutation::<A>::new_with_id(1.0, own), sibling.map(|r| if same_id { NormalMutation::<A>::new_with_id(2.5, r.f()) } else { NormalMutation::new(1.0, r.f()) })),
+                        1 => ("UniformMutation", UniformMutation::<A>::new_with_id(1.0, own), sibling.map(|r| if same_id { UniformMutation::<A>::new_with_id(2.5, r.f()) } else { UniformMutation::new(1.0, r.f()) })),
+                        _ => ("PartialRandomSpread", PartialRandomSpread::<A>::new_with_id(own), sibling.map(|r| if same_id { PartialRandomSpread::<A>::new_with_id(r.f()) } else { PartialRandomSpread::new(r.f()) })),
                     };
                     let mut st = state_with(vec![inds], *seed);
                     if let Some(sib) = &sib {
@@ -887,9 +928,9 @@ fn comp_oracle_inner(c: &CompCase, cl: &mut u64) -> Result<(), Failure> {
                     let pop: Vec<Vec<bool>> = (0..n).map(|_| (0..dim).map(|_| next() % 2 == 0).collect()).collect();
                     let inds: Vec<_> = pop.iter().map(|s| Individual::<BitsP>::new_unevaluated(s.clone())).collect();
                     let (name, comp, sib): (&str, Box<dyn Component<BitsP>>, Option<Box<dyn Component<BitsP>>>) = if which == 3 {
-                        ("BitFlipMutation", BitFlipMutation::<A>::new_with_id(own), sibling.map(|r| BitFlipMutation::new(r.f())))
+                        ("BitFlipMutation", BitFlipMutation::<A>::new_with_id(own), sibling.map(|r| if same_id { BitFlipMutation::<A>::new_with_id(r.f()) } else { BitFlipMutation::new(r.f()) }))
                     } else {
-                        ("PartialRandomBitstring", PartialRandomBitstring::<A>::new_with_id(1.0, own), sibling.map(|r| PartialRandomBitstring::new(1.0, r.f())))
+                        ("PartialRandomBitstring", PartialRandomBitstring::<A>::new_with_id(1.0, own), sibling.map(|r| if same_id { PartialRandomBitstring::<A>::new_with_id(0.0, r.f()) } else { PartialRandomBitstring::new(1.0, r.f()) }))
                     };
                     let mut st = state_with(vec![inds], *seed);
                     if let Some(sib) = &sib {
@@ -919,7 +960,7 @@ fn comp_oracle_inner(c: &CompCase, cl: &mut u64) -> Result<(), Failure> {
                     }).collect();
                     let inds: Vec<_> = pop.iter().map(|s| Individual::<TspP>::new_unevaluated(s.clone())).collect();
                     let comp: Box<dyn Component<TspP>> = ScrambleMutation::<A>::new_with_id(own);
-                    let sib: Option<Box<dyn Component<TspP>>> = sibling.map(|r| ScrambleMutation::new(r.f()));
+                    let sib: Option<Box<dyn Component<TspP>>> = sibling.map(|r| if same_id { ScrambleMutation::<A>::new_with_id(r.f()) } else { ScrambleMutation::new(r.f()) });
                     let mut st = state_with(vec![inds], *seed);
                     if let Some(sib) = &sib {
                         run_comp_init(sib.as_ref(), &problem, &mut st, "ScrambleMutation", &at)?;
@@ -962,8 +1003,8 @@ fn comp_strategy() -> impl Strategy<Value = CompCase> {
         (rate(), any::<bool>()).prop_map(|(pc, both)| RealOp::UniformX { pc, both }),
         (rate(), any::<bool>()).prop_map(|(pc, both)| RealOp::ArithmeticX { pc, both }),
         (1u32..3, prop_oneof![Just(0.0), Just(0.5), Just(1.0), Just(2.0)].prop_map(Fb::of)).prop_map(|(y, f)| RealOp::DeMutation { y, f }),
-        rate().prop_map(|pc| RealOp::DeBinomial { pc }),
-        rate().prop_map(|pc| RealOp::DeExponential { pc }),
+        (rate(), prop_oneof![3 => Just(0i8), 1 => -3i8..4]).prop_map(|(pc, skew)| RealOp::DeBinomial { pc, skew }),
+        (rate(), prop_oneof![3 => Just(0i8), 1 => -3i8..4]).prop_map(|(pc, skew)| RealOp::DeExponential { pc, skew }),
     ];
     let bit_op = prop_oneof![
         rate().prop_map(|rm| BitOp::BitFlip { rm }),
@@ -983,7 +1024,7 @@ fn comp_strategy() -> impl Strategy<Value = CompCase> {
         4 => (real_op, real_pop(), any::<u64>()).prop_map(|(op, pop, seed)| CompCase::Real { op, pop, seed }),
         2 => (bit_op, (1usize..9).prop_flat_map(|dim| proptest::collection::vec(proptest::collection::vec(any::<bool>(), dim), 0..10)), any::<u64>()).prop_map(|(op, pop, seed)| CompCase::Bits { op, pop, seed }),
         4 => (perm_op, 2usize..9, 0usize..8, any::<u64>()).prop_map(|(op, n, size, seed)| CompCase::Perm { op, n, size, seed }),
-        1 => (0u8..6, any::<bool>(), proptest::option::of(rate()), 1usize..6, 1usize..7, any::<u64>()).prop_map(|(which, own_full, sibling, n, dim, seed)| CompCase::Identified { which, own_full, sibling, n, dim, seed }),
+        1 => (0u8..6, any::<bool>(), proptest::option::of(rate()), 1usize..6, 1usize..7, any::<u64>(), any::<bool>()).prop_map(|(which, own_full, sibling, n, dim, seed, same_id)| CompCase::Identified { which, own_full, sibling, n, dim, seed, same_id }),
     ]
 }
 
@@ -1007,7 +1048,7 @@ pub fn run_all(ctx: &mut Ctx, replay: Option<&Path>) {
         "6 identifier-generic mutations instantiated with identifier A x own rate {0, 1} x {alone, next to a default-identified instance with rate 0, 1} x 2 population shapes",
         (0u8..6).flat_map(|which| {
             [false, true].into_iter().flat_map(move |own_full| {
-                [None, Some(0.0), Some(1.0)].into_iter().flat_map(move |sib| [(1usize, 1usize), (3, 4)].into_iter().map(move |(n, dim)| CompCase::Identified { which, own_full, sibling: sib.map(Fb::of), n, dim, seed: 11 + which as u64 }))
+                [None, Some(0.0), Some(1.0)].into_iter().flat_map(move |sib| [(1usize, 1usize, false), (3, 4, false), (3, 4, true)].into_iter().map(move |(n, dim, same_id)| CompCase::Identified { which, own_full, sibling: sib.map(Fb::of), n, dim, seed: 11 + which as u64, same_id }))
             })
         }),
     );
